@@ -19,6 +19,7 @@ EXPLANATION = (
     "[0, 360); (VOL) cone/bicone/cylinder samplers use independent variates with height = cbrt / bicone-inverse-CDF / linear and radius = "
     "sqrt, the inverse CDFs of the volume-uniform density, and invert_*∘sample_* = id.  Not decided: statistical uniformity itself, "
     "monotonicity of each transform between the end points, rand's generators."
+    " VOL-UNIFORM: the shaped uniform samplers use three distinct variates, radius = k·sqrt(d), height = k·F^-1(d), bounds = CDFs of the two ends (structural half of volume uniformity for sub-ranges)."
 )
 
 T_US = "rand::distributions::uniform::UniformSampler"
